@@ -9,16 +9,18 @@
   What is proved here for *all* coordinates and record lengths:
     overlap / containment / distance (line and ring, single- and multi-part, incl. origin-spanning)
     connect on a linear record (exact hull, argument order, idempotence, strand rule)
+    connect of two single-part locations on a ring (covers, well-formed, ≤ hull, shortest arc when < half)
     offset of a single-part location on a ring (rotation of the same bases, length, strand)
     extension of a single-part location on a linear and on a circular record (exactly the bases within the distance)
     the feature ordering is a strict weak order
   Carried by the exhaustive small-scope correspondence + executable set-of-bases spec only
-  (see DESIGN.md): connect on a ring (cover / well-formed / shortest arc), extension and offset of
-  multi-part (incl. origin-spanning) locations.
+  (see DESIGN.md): connect on a ring for more than two or for origin-spanning inputs (cover / well-formed /
+  shortest arc), extension and offset of multi-part (incl. origin-spanning) locations.
 -/
 import ASV.Proofs.LocOrder
 import ASV.Proofs.LocString
 import ASV.Proofs.LocExtend
+import ASV.Proofs.LocConnectRing
 namespace ASV.C04
 open ASV
 
@@ -115,6 +117,22 @@ theorem connect_line_idem (ls : List Loc) (h : LineInput ls) (r : Loc) (hr : con
   rw [connect_line_is_hull _ ⟨by simp, by intro l hl; simp at hl; subst hl; simp [Loc.parts, bridgesOrigin]⟩]
   simp [minList, maxList, Loc.start, Loc.end, commonStrand, Loc.strand]
 
+/-! ### connecting on a circular record -/
+
+/-- connecting two single-part locations on a ring of length `L`: the result covers both, is a
+    well-formed span (one part, or two parts meeting at the origin), is never longer than the
+    line hull, and is the shortest covering arc whenever one shorter than half the record exists.
+    (More than two inputs / origin-spanning inputs: exhaustive small-scope correspondence with the
+    same four conditions evaluated on the implementation's output.) -/
+theorem connect_ring_two (a b : Part) (L : Int) (ha : a.OK L) (hb : b.OK L) (hL : 0 < L) :
+    ∃ r, connect [.simple a, .simple b] (some L) = .ok r ∧
+      (∀ i, (a.mem i = true ∨ b.mem i = true) → r.mem i = true) ∧
+      areaWF L L r = true ∧
+      r.len ≤ max a.hi b.hi - min a.lo b.lo ∧
+      (2 * (L - max (lineGapSigned a b) (originGap a b L)) < L →
+        r.len = L - max (lineGapSigned a b) (originGap a b L)) :=
+  connect_two_ring a b L ha hb hL
+
 /-! ### shifting by an offset (ring) -/
 
 /-- shifting a single-part location by any offset on a ring of length `L` succeeds and yields
@@ -175,6 +193,8 @@ example : (Loc.compound [⟨90, 100, .fwd⟩, ⟨0, 10, .fwd⟩]).OK 100 ∧ (Lo
 example : getDistance (.compound [⟨90, 100, .fwd⟩, ⟨0, 10, .fwd⟩]) (.simple ⟨20, 30, .fwd⟩) 100 = 10 := by decide
 /-- D2's layout: the end lands exactly on the wrap point -/
 example : offsetLocation (.simple ⟨5, 10, .fwd⟩) 10 20 = .ok (.simple ⟨15, 20, .fwd⟩) := by rfl
+/-- the wrap case of `connect_ring_two` is reachable: 60 bases between along the line, 25 over the origin -/
+example : connect [.simple ⟨5, 20, .fwd⟩, .simple ⟨80, 90, .rev⟩] (some 100) = .ok (.compound [⟨80, 100, .fwd⟩, ⟨0, 20, .fwd⟩]) := by rfl
 example : offsetLocation (.simple ⟨5, 10, .fwd⟩) 12 20 = .ok (.compound [⟨17, 20, .fwd⟩, ⟨0, 2, .fwd⟩]) := by rfl
 
 end ASV.C04
